@@ -4,6 +4,7 @@ mod common;
 mod chain;
 mod rx;
 mod ser;
+mod server;
 mod tx;
 
 fn main() {
@@ -29,6 +30,7 @@ fn main() {
         "chain" => chain::main(&o),
         "ser" => ser::main(&o),
         "ser-f32" => ser::main_f32(&o),
+        "srv" | "srv-faults" | "srv-stream" | "srv-fair" => server::main(&o, &scenario),
         "tx" => tx::main(&o, false),
         "tx-bounds" => tx::main(&o, true),
         other => {
